@@ -160,8 +160,8 @@ pub fn run_block_c17(verif_seed: u64, block: u64, n_runs: usize, opts: &BlockOpt
     for run in 0..n_runs as u64 {
         let seed = run_seed(verif_seed, block, run);
         let g = gen_run(seed, Mode::C17);
-        // every 16th run also checks the in-process pristine instances against brand-new processes
-        let ro = RunOpts { fresh_process: run % 16 == 15, ..RunOpts::default() };
+        // every 8th run also checks the in-process pristine instances against brand-new processes
+        let ro = RunOpts { fresh_process: run % 8 == 7, ..RunOpts::default() };
         let r = run_spec(&g.spec, Prop::C17, &ro);
         if opts.log {
             println!("RUN {} {:016x} {:016x} {:016x} {}{}", run, g.spec.workload_hash(), r.trace_hash(), r.outcome_hash(), r.compared, if r.lost_control { " LOST-CONTROL" } else { "" });
